@@ -43,7 +43,10 @@ def runLine (st : RunState) (line : String) : RunState × Option String :=
     match modeOfStr m with
     | none => ({ st with dead := true }, some "unmodelled")
     | some mode =>
-      if (kvGet rest "route").isSome ∧ kvGet rest "route" != some "vio" then ({ st with dead := true }, some "unmodelled") else
+      let route := (kvGet rest "route").getD "vio"
+      -- path / descriptor routes behave like virtual I/O for the modelled containers, except that ftruncate works
+      if !(route == "vio" ∨ route == "fd" ∨ route == "fd1" ∨ route == "path") then ({ st with dead := true }, some "unmodelled") else
+      let canTrunc := route != "vio"
       let fmt := match kvGet rest "fmt" with | some h => parseHexNat h.toList | none => 0
       let ch := parseIntStr ((kvGet rest "ch").getD "0")
       let sr := parseIntStr ((kvGet rest "sr").getD "0")
@@ -53,7 +56,7 @@ def runLine (st : RunState) (line : String) : RunState × Option String :=
       match openHandle si s0 mode fmt ch sr with
       | .unmodelled => ({ st with dead := true }, some "unmodelled")
       | .fail s => ({ st with w := { (st.w.setStore si s) with sfErrno := 1 } }, some "open=NULL err=E")
-      | .ok h s => ({ st with w := (st.w.setStore si s).setHandle (idxOf hn) (some h) }, some (showOpen h))
+      | .ok h s => ({ st with w := (st.w.setStore si s).setHandle (idxOf hn) (some { h with canTruncate := canTrunc }) }, some (showOpen h))
   | "w" :: hn :: tyS :: unit :: n :: drest =>
     let dataS := drest.headD ""
     match tyOf tyS with
